@@ -71,3 +71,21 @@ Section NodeTie.
     - cbv zeta. rewrite IH. destruct (matcher_expr p); reflexivity.
   Qed.
 End NodeTie.
+
+(** ** The chain builder node -> generator text, end to end in translated Go code: the text of a
+    simple assignment is model.SimpleField{LHS: lhs.AssignExpr(), RHS: rhs.AssignExpr(), Error: rhs.ReturnsError()}.String()
+    with every function in it the translated one. *)
+From Cvg Require Import Gen.
+From Cvg.proofs Require Import GenTieProofs.
+
+Theorem simple_assignment_text_chain matcher_of l r :
+  GoGen.Assignment_String
+    (GoGen.SimpleField (Node_AssignExpr (lower_node matcher_of l)) (Node_AssignExpr (lower_node matcher_of r))
+       (Node_ReturnsError (lower_node matcher_of r)))
+  = assignment_string (ASimple l (RNode r) (returns_error r)).
+Proof.
+  rewrite !assign_expr_tie, returns_error_tie.
+  change (GoGen.SimpleField (assign_expr l) (assign_expr r) (returns_error r))
+    with (lower_assignment (ASimple l (RNode r) (returns_error r))).
+  apply assignment_string_tie.
+Qed.
